@@ -46,7 +46,7 @@ EXPECTED_PROBES = ["neutral-name-sniffed", "stdin-read", "first-chunk-inside-mag
 CODECS = ["none", "gz", "bz2", "lz4", "zst"]
 EXT = {"none": "", "gz": ".gz", "bz2": ".bz2", "lz4": ".lz4", "zst": ".zst"}
 MAGIC = {"gz": b"\x1f\x8b", "bz2": b"BZh", "lz4": b"\x04\x22\x4d\x18", "zst": b"\x28\xb5\x2f\xfd"}
-NAMINGS = ["ext-path", "neutral-path", "bytesio", "bufreader", "rawobj", "stdin-dash", "stdin-none", "scheme-stdin", "bufreader-small", "stdin-nopeek", "bytesio-offset", "bufreader-offset", "ext-path-after-selector", "rawobj-seekable"]
+NAMINGS = ["ext-path", "neutral-path", "bytesio", "bufreader", "rawobj", "stdin-dash", "stdin-none", "scheme-stdin", "bufreader-small", "stdin-nopeek", "bytesio-offset", "bufreader-offset", "ext-path-after-selector", "rawobj-seekable", "fifo-path", "zip-member"]
 NEED_FIRST = {"gz": 2, "bz2": 3, "lz4": 4, "zst": 4}
 
 STREAM_TYPES = ["string", "varint", "uint32", "boolean", "float", "bytes", "datetime", "string[]", "path", "net.ipaddress"]
@@ -216,6 +216,11 @@ def foreign_compress(codec, data):
     if codec == "lz4":
         return lz4.frame.compress(data)
     if codec == "zst":
+        if len(data) % 3 == 0:
+            # what "zstd --long" / "--ultra" produce: a streamed frame announcing a 32 MiB window
+            params = zstandard.ZstdCompressionParameters.from_level(3, window_log=25)
+            c = zstandard.ZstdCompressor(compression_params=params).compressobj()
+            return c.compress(data) + c.flush()
         return zstandard.ZstdCompressor().compress(data)
     return data
 
@@ -263,6 +268,23 @@ def do_read(w, plan, naming, delivery, data, container, codec, tag):
                 fp = io.BufferedReader(raw, 4096)
                 w.keep.append(fp)
                 fp.read(pre_len)
+            rd = RecordReader(fileobj=fp)
+        elif naming == "fifo-path":
+            # a named pipe or /dev/fd/N: exists, is not a regular file, cannot seek (shell process substitution)
+            path = "/simfs/r/fd63"
+            w.fs.put_fifo(path, data)
+            w.fs.read_plans[path] = HandlePlan(delivery=[4096, 7, 4096], tail="whole")
+            rd = RecordReader(pre + path)
+        elif naming == "zip-member":
+            import zipfile
+
+            # what ZipFile.open(member) returns: a binary, peekable object whose .mode is the string "r"
+            zbuf = io.BytesIO()
+            with zipfile.ZipFile(zbuf, "w", zipfile.ZIP_STORED) as zf:
+                zf.writestr("member.bin", data)
+            zf = zipfile.ZipFile(io.BytesIO(zbuf.getvalue()))
+            fp = zf.open("member.bin")
+            w.keep += [zf, fp]
             rd = RecordReader(fileobj=fp)
         elif naming == "neutral-path":
             path = "/simfs/r/neutral.bin"
